@@ -24,7 +24,7 @@ FAMILIES = ("C05.",)
 def run_case(case):
     from .. import sampler_driver as sd
     g = c02._setup()
-    lib = c02._lib(case["n"])
+    lib = c02._lib(case["n"], svar=case.get("svar", 0))
     wd = os.path.join(case["workdir"], case["id"])
     os.makedirs(wd, exist_ok=True)
     real_pool = None
@@ -93,7 +93,8 @@ def gen_cases(ctx, rnd, count, maxn, multipool=0):
                         p2 = "object"
                     calls.append(dict(api="rejection", path=p2, nbatches=rnd.choice([0, 1, 2, 3, n + 1]), group=group, **opts))
         cases.append({"id": "c05-%s%d" % (("mp%d-" % multipool) if multipool else "", j), "n": n, "seed": rnd.randint(0, 10**6), "pool": rnd.choice(["rec", "rec", "serial"]),
-                      "pool_size": rnd.choice([1, 2, 3, 4]), "calls": calls, "workdir": ctx.workdir, "multipool": multipool})
+                      "pool_size": rnd.choice([1, 2, 3, 4]), "calls": calls, "workdir": ctx.workdir, "multipool": multipool,
+                      "svar": int(j % 5 in (1, 3))})
     return cases
 
 
